@@ -5,6 +5,8 @@ Ops (grammar in lean/BiotiteModel/Driver/C09.lean); `<head>` =
     <kind b|g|u> <mode s|l> <gap> <a> <b> <k2> <matrix> <band lo:hi|-> <seed i:j|-> <thr|-> <dir b|u|d> <max> <mts|->
   run <head>                    -> ok <score> | ERR:<Exc>       score of the heuristic (model: bandedFill / regionAlign / xdropExtend)
   so  <head>                    -> ok <score> | ERR:<Exc>       the score_only=True call (gapped / ungapped)
+  abf <head>                    -> ok <optAffAbutFree> <optAff.semi>   affine semi-global cases: the Lean recursions vs the
+                                   independent Python recursion (abutting allowed at free terminal gaps / never)
   chk <head> <score> <traces>   -> ok n=<n> sound=<k> abutfree=<c>   the verified checker `checkResult` on EVERY returned trace;
                                    c = affine semi-global traces whose completion abuts a free terminal gap (class affAbutFree)
 
@@ -40,21 +42,26 @@ RULE = ("seeded sequence pairs as in C08 (length 0-8 quick, a few long ones > IN
 TRUSTED = ["numpy np.max/np.where/np.unique/np.flip/np.concatenate in the Python parts modelled by their documented semantics",
            "Alignment.trace rows are handed to the Lean checker as printed integers"]
 ASSUMPTIONS = ["NoOverflow: every table entry fits int32 (|matrix|,|gap| <= 6, threshold <= 10^6 in the valid stream)",
-               "the pseudo -inf of the banded tables and the 0 = invalid convention of the X-drop tables are modelled as `none`"]
+               "the pseudo -inf of the banded tables and the 0 = invalid convention of the X-drop tables are modelled as `none`",
+               "banded affine model: none = -inf wherever the sentinel cannot underflow (max(open,ext)+ext >= min(open,ext)+min(min_score,0)), "
+               "the code's concrete sentinel with int32 wrap-around otherwise (known finding)"]
 TECHNIQUE = ("Lean 4: verified checker run on every actual output (soundness by induction over alignment columns, upper bound "
              "from the C08 optimality theorems) + proofs on executable models of the band fill / X-drop extension + correspondence")
 LEVEL_TEXT = ("theorems: checker soundness for linear AND affine penalties (valid, honest rescoring incl. completion by the "
               "unaligned ends, band containment, seed and direction, no abutting gaps, reported score <= the optimum of the class "
               "the output belongs to: opt (linear), optAff over non-abutting alignments (affine; C08's class, free terminal gaps "
-              "count), or - affine semi-global outputs whose completion abuts a free terminal gap, which the checker reports as "
-              "class affAbutFree - the linear semi-global optimum for max(open, ext), a proved bound on the abutting-allowed "
-              "optimum); never-above-optimum for every valid trace in each class (from C08_upper_*); banded model: <= semi-global "
-              "optimum for every band and = it for a full band (up to the pair-free alignment); ungapped extension = best prefix "
-              "and gapped X-drop region (linear) = maximum over all prefix pairs of the global optimum when the threshold cannot "
-              "bind (explicit slack 2(n+m)c); score_only = full score on the models.  PARTIAL: the gapped X-drop with AFFINE "
-              "penalties, the table-growth / max_table_size logic and the pruning under binding thresholds are tied by the "
-              "correspondence and the oracle only; the exact abutting-allowed affine optimum (class affAbutFree) and 'full band "
-              "reaches the optimum' for affine penalties are checked per output by the enumeration / recursion oracle only")
+              "count), or - affine semi-global outputs whose completion abuts a free terminal gap, reported as class affAbutFree - "
+              "optAffAbutFree, the three-state recursion with the free-border transitions, for which optAff.semi <= optAffAbutFree "
+              "<= optSemi(max(open,ext)) is proved and which is compared with an independent recursion on every case); "
+              "never-above-optimum for every valid trace in each class (from C08_upper_*); banded model, linear: <= semi-global "
+              "optimum for every band and = it for a full band (up to the pair-free alignment); ungapped extension = best prefix; "
+              "gapped X-drop region, linear AND affine: when the threshold cannot bind nothing is pruned and the result is the "
+              "maximum of the anchored DP table (linear: explicit slack 2(n+m)c); score_only = full score; table growth: "
+              "_extend_table preserves every cell, and max_table_size only decides between MemoryError and the unlimited result.  "
+              "PARTIAL: 'full band = optAffAbutFree' for affine penalties is proved on witnesses only and otherwise checked on "
+              "every full-band case (model vs recursion in the driver, code vs independent recursion in the oracle); that "
+              "optAffAbutFree is an upper bound over ALL alignments of its class is not proved (only the sandwich); pruning under "
+              "binding thresholds is tied by the correspondence only")
 LEVEL_NOTE = ("trusted: Lean kernel, line-protocol driver, generators; int32 = Z under NoOverflow; the banded model works in "
               "classic table coordinates (the straightening j_s = j - i - lower + 1 is an index bijection)")
 
@@ -147,6 +154,9 @@ def _ops(c):
     ops = [f"run {_head(c)}"]
     if c["kind"] != "banded":
         ops.append(f"so {_head(c)}")
+    if c["kind"] == "banded" and not c.get("local") and len(c["gap"]) == 2 and c["a"] and c["b"] \
+            and all(g <= 0 for g in c["gap"]):
+        ops.append(f"abf {_head(c)}")
     ops.append(f"chk {_head(c)} 0 -")
     return ops
 
@@ -255,6 +265,10 @@ def run_impl(case):
             out.append(f"ok {_call_safe(c, score_only=True)}")
         except Exception as e:  # noqa: BLE001
             out.append(_err(e))
+    if any(o.startswith("abf ") for o in case["ops"]):
+        # specification values, independent of the code under test: the abutting-allowed optimum and C08's optimum
+        out.append(f"ok {rec_opt('s', c['a'], c['b'], c['M'], c['gap'], relaxed=True)} "
+                   f"{rec_opt('s', c['a'], c['b'], c['M'], c['gap'])}")
     if res is not None:
         sc = res[0][0] if res else 0
         tr_s = "/".join(_trace_s(t) for _, t in res) if res else "-"
